@@ -46,6 +46,19 @@ def canOpen (m : Nat) : Bool :=
 /-- `checkSafeName` -/
 def safeName (n : Bytes) : Bool := n != [] && !n.contains 0x2f && n != [0x2e] && n != [0x2e, 0x2e]
 
+/-- a path component that passed `checkSafeName`: the only kind of name the path tree stores
+and the only kind a backend call can carry in a name position (intrinsic invariant). -/
+def SafeName := { n : Bytes // safeName n = true }
+
+instance : DecidableEq SafeName := inferInstanceAs (DecidableEq { n : Bytes // safeName n = true })
+instance : Repr SafeName := ⟨fun n _ => repr n.1⟩
+
+/-- `checkSafeName` on every component. -/
+def checkNames : List Bytes → Option (List SafeName)
+  | [] => some []
+  | n :: ns =>
+    if h : safeName n = true then (checkNames ns).map (⟨n, h⟩ :: ·) else none
+
 /-! ## state -/
 
 structure XAttr where
@@ -70,8 +83,8 @@ deriving Repr, DecidableEq, Inhabited
 
 structure Node where
   deleted : Bool := false
-  childNodes : List (Bytes × Nat) := []
-  childRefs : List (Nat × Bytes) := []       -- childRefNames (ref ↦ name)
+  childNodes : List (SafeName × Nat) := []
+  childRefs : List (Nat × SafeName) := []    -- childRefNames (ref ↦ name)
 deriving Repr, DecidableEq, Inhabited
 
 structure State where
@@ -94,6 +107,8 @@ structure Call where
   meth : String
   ints : List Nat := []
   strs : List Bytes := []
+  /-- the arguments that are path components (walk / create / … names) -/
+  names : List SafeName := []
 deriving Repr, DecidableEq, Inhabited
 
 structure Ctx where
@@ -137,8 +152,9 @@ def getConn : M Nat := fun c => .ok c.conn c
 def goPanic {α : Type} : M α := fun c => .panic c
 
 /-- a backend call that takes its outcome from the tape -/
-def call (h : Nat) (meth : String) (ints : List Nat := []) (strs : List Bytes := []) : M Res := fun c =>
-  let c := { c with calls := ⟨h, meth, ints, strs⟩ :: c.calls }
+def call (h : Nat) (meth : String) (ints : List Nat := []) (strs : List Bytes := [])
+    (names : List SafeName := []) : M Res := fun c =>
+  let c := { c with calls := ⟨h, meth, ints, strs, names⟩ :: c.calls }
   match c.tape with
   | [] => .ok (.err 9999) c                              -- tape exhausted: desynchronised
   | .panic :: t => .panic { c with tape := t }
@@ -146,11 +162,16 @@ def call (h : Nat) (meth : String) (ints : List Nat := []) (strs : List Bytes :=
 
 /-- `File.Close()`: outcome is a function of the handle (see header). Returns the errno, 0 = nil. -/
 def callClose (h : Nat) : M Nat := fun c =>
-  let c := { c with calls := ⟨h, "Close", [], []⟩ :: c.calls }
+  let c := { c with calls := ⟨h, "Close", [], [], []⟩ :: c.calls }
   .ok (if c.closeFaults && h % 11 == 7 then EIO else 0) c
 
-def callRenamed (h parentH : Nat) (name : Bytes) : M Unit := fun c =>
-  .ok () { c with calls := ⟨h, "Renamed", [parentH], [name]⟩ :: c.calls }
+def callRenamed (h parentH : Nat) (name : SafeName) : M Unit := fun c =>
+  .ok () { c with calls := ⟨h, "Renamed", [parentH], [], [name]⟩ :: c.calls }
+
+/-- `for x in l do f x` as plain structural recursion (proof-friendly). -/
+def forEach {α : Type} : List α → (α → M Unit) → M Unit
+  | [], _ => pure ()
+  | a :: as, f => do f a; forEach as f
 
 /-! ## references -/
 
@@ -233,7 +254,7 @@ def isDeleted (r : Nat) : M Bool := do
   return (← getNode x.node).deleted
 
 /-- `pathNodeFor`: existing child node or a fresh one -/
-def pathNodeFor (n : Nat) (name : Bytes) : M Nat := do
+def pathNodeFor (n : Nat) (name : SafeName) : M Nat := do
   let nd ← getNode n
   match nd.childNodes.find? (·.1 == name) with
   | some (_, c) => return c
@@ -245,13 +266,13 @@ def pathNodeFor (n : Nat) (name : Bytes) : M Nat := do
     return c
 
 /-- `addChild` / `addChildLocked` (panics if the ref is already registered) -/
-def addChild (n r : Nat) (name : Bytes) : M Unit := do
+def addChild (n r : Nat) (name : SafeName) : M Unit := do
   let nd ← getNode n
   if nd.childRefs.any (·.1 == r) then goPanic
   else setNode n fun nd => { nd with childRefs := (r, name) :: nd.childRefs }
 
 /-- `nameFor` (panics if absent) -/
-def nameFor (n r : Nat) : M Bytes := do
+def nameFor (n r : Nat) : M SafeName := do
   let nd ← getNode n
   match nd.childRefs.find? (·.1 == r) with
   | some (_, nm) => return nm
@@ -263,11 +284,10 @@ def notifyDelete : Nat → Nat → M Unit
   | fuel+1, n => do
     setNode n fun nd => { nd with deleted := true }
     let nd ← getNode n
-    for (_, c) in nd.childNodes do
-      notifyDelete fuel c
+    forEach nd.childNodes fun e => notifyDelete fuel e.2
 
 /-- `markChildDeleted`: `removeWithName(name, nil)` then `notifyDelete` -/
-def markChildDeleted (n : Nat) (name : Bytes) : M Unit := do
+def markChildDeleted (n : Nat) (name : SafeName) : M Unit := do
   let nd ← getNode n
   let orig := (nd.childNodes.find? (·.1 == name)).map (·.2)
   setNode n fun nd => { nd with
@@ -284,18 +304,17 @@ def notifyNameChange : Nat → Nat → M Unit
   | 0, _ => pure ()
   | fuel+1, n => do
     let nd ← getNode n
-    for (r, nm) in nd.childRefs do
-      let x ← getRef r
+    forEach nd.childRefs fun e => do
+      let x ← getRef e.1
       match x.parent with
       | some p => do
         let px ← getRef p
-        callRenamed x.file px.file nm
+        callRenamed x.file px.file e.2
       | none => pure ()
-    for (_, c) in nd.childNodes do
-      notifyNameChange fuel c
+    forEach nd.childNodes fun e => notifyNameChange fuel e.2
 
 /-- `renameChildTo` -/
-def renameChildTo (f : Nat) (oldName : Bytes) (target : Nat) (newName : Bytes) : M Unit := do
+def renameChildTo (f : Nat) (oldName : SafeName) (target : Nat) (newName : SafeName) : M Unit := do
   let fx ← getRef f
   let tx ← getRef target
   markChildDeleted tx.node newName
@@ -306,7 +325,8 @@ def renameChildTo (f : Nat) (oldName : Bytes) (target : Nat) (newName : Bytes) :
   setNode fx.node fun nd => { nd with
     childRefs := nd.childRefs.filter (·.2 != oldName),
     childNodes := nd.childNodes.filter (·.1 != oldName) }
-  for (r, _) in moved do
+  forEach moved fun e => do
+    let r := e.1
     let x ← getRef r
     if x.refs > 0 then               -- TryIncRef
       incRef r
@@ -318,6 +338,7 @@ def renameChildTo (f : Nat) (oldName : Bytes) (target : Nat) (newName : Bytes) :
       addChild tx.node r newName
       callRenamed x.file tx.file newName
       decRefU r
+    else pure ()
   match orig with
   | some o => do
     -- addPathNodeFor (panics if the name is present – it was just removed by markChildDeleted)
